@@ -11,3 +11,4 @@ echo "import site; site.addsitedir('/venv/lib/python3.12/site-packages')" > "$sp
 .venv/bin/python -c "import z3, cvc5, crosshair" 2>/dev/null || \
   PIP_NO_INDEX=1 .venv/bin/pip install -q --no-index --find-links /opt/veriftools/wheels z3-solver cvc5 crosshair-tool
 .venv/bin/python -c "import z3, ixai, numpy, river; print('setup ok: z3', z3.get_version_string())"
+.venv/bin/python selftest/engine_validation.py | tail -1
